@@ -11,6 +11,9 @@ Self-contained (standard library + httpx).  Reused by several properties (C12, C
 What it does
 * account authorisation by HTTP basic auth; authorisation tokens carry a use counter (`token_uses`: after that many API calls
   the token answers 401 `expired_auth_token`; None = never expires); every API call checks the token;
+* optional service clock (`clock` = callable returning the service's current UTC time as a naive `datetime`): account and
+  upload-URL authorisation tokens then also expire `token_ttl` seconds after they were issued (B2: 24 hours), again with 401
+  `expired_auth_token`.  Without a clock tokens never age (the behaviour every earlier user of this fake relies on);
 * per file name a stack of versions: `('upload', bytes)` or `('hide',)`; uploads push a version, `b2_hide_file` pushes a hide
   marker (400 `no_such_file` if the name has no version, 400 `already_hidden` if the newest version is a hide marker);
 * download/HEAD by name serve the newest version if it is an upload, else 404 `not_found`;
@@ -35,7 +38,7 @@ AUTH_URL = 'https://api.backblazeb2.com/b2api/v2/b2_authorize_account'
 
 class FakeB2:
     def __init__(self, bucket_name, key_id, application_key, bucket_id='4a48fe8875c6214145260818', account_id='acc0123456789',
-                 page_size=10000, fault=None, token_uses=None, restricted=False, other_buckets=()):
+                 page_size=10000, fault=None, token_uses=None, restricted=False, other_buckets=(), clock=None, token_ttl=86400):
         self.bucket_name, self.bucket_id, self.account_id = bucket_name, bucket_id, account_id
         self.key_id, self.application_key = key_id, application_key
         self.page_size = page_size
@@ -49,6 +52,10 @@ class FakeB2:
         self.versions = {}         # name -> [('upload', bytes) | ('hide',)], newest last
         self.tokens = {}           # auth token -> remaining uses (None = unlimited)
         self.upload_tokens = set()
+        self.clock = clock                  # None, or () -> naive UTC datetime: the service's own clock
+        self.token_ttl = token_ttl          # seconds a token stays valid once issued (only with a clock)
+        self.issued = {}                    # token (account or upload) -> time of issue
+        self.n_aged_out = 0                 # requests answered 401 because the token was older than token_ttl
         self.n_tokens = 0
         self.log = []
 
@@ -65,12 +72,24 @@ class FakeB2:
         self.n_tokens += 1
         t = '4_%s_tok%04d_%s=' % (self.key_id, self.n_tokens, hashlib.sha1(str(self.n_tokens).encode()).hexdigest()[:12])
         self.tokens[t] = self.token_uses
+        if self.clock is not None:
+            self.issued[t] = self.clock()
         return t
+
+    def _aged_out(self, t):
+        if self.clock is None or t not in self.issued:
+            return False
+        if (self.clock() - self.issued[t]).total_seconds() < self.token_ttl:
+            return False
+        self.n_aged_out += 1
+        return True
 
     def _check_token(self, request):
         t = request.headers.get('authorization')
         if t not in self.tokens:
             return self._err(401, 'bad_auth_token', 'Invalid authorization token')
+        if self._aged_out(t):
+            return self._err(401, 'expired_auth_token', 'Authorization token has expired')
         left = self.tokens[t]
         if left is not None:
             if left <= 0:
@@ -153,6 +172,8 @@ class FakeB2:
             return self._err(400, 'bad_bucket_id', 'bucketId')
         t = 'up_%04d_%s' % (len(self.upload_tokens) + 1, hashlib.sha1(str(len(self.upload_tokens)).encode()).hexdigest()[:10])
         self.upload_tokens.add(t)
+        if self.clock is not None:
+            self.issued[t] = self.clock()
         return httpx.Response(200, json={'bucketId': self.bucket_id, 'authorizationToken': t,
                                          'uploadUrl': '%s/b2api/v2/b2_upload_file/%s/%s' % (self.upload_host, self.bucket_id, t)})
 
@@ -203,6 +224,8 @@ class FakeB2:
         tok = request.headers.get('authorization')
         if request.method != 'POST' or not raw_path.startswith(pre) or raw_path[len(pre):] != tok or tok not in self.upload_tokens:
             return self._err(401, 'bad_auth_token', 'upload token')
+        if self._aged_out(tok):
+            return self._err(401, 'expired_auth_token', 'Upload authorization token has expired')
         enc_name = request.headers.get('x-bz-file-name')
         if enc_name is None:
             return self._err(400, 'bad_request', 'missing X-Bz-File-Name')
